@@ -54,6 +54,15 @@ InitAny == /\ src \in [Pkgs -> Variants]
            /\ hist = <<>>
            /\ last = [cmd |-> "none", args |-> [pkgs |-> {}], exit |-> 0]
 
+\* focused one-step histories: every combination of source variants with output files that are absent, stale or
+\* exactly fresh for some (header, tags) - the states in which diff / gen status and isolation are decided
+InitFocus == /\ src \in [Pkgs -> Variants]
+             /\ \E h \in {"none", "ok"}, t \in Tags :
+                  disk \in [Slot -> {"absent", "stale"} \cup {Fresh(v, h, t) : v \in {"okA", "okB"}}]
+             /\ \A s \in Slot : disk[s] \in {"absent", "stale"} \/ (Generates(src[s[1]]) /\ \E h \in {"none", "ok"}, t \in Tags : disk[s] = Fresh(src[s[1]], h, t))
+             /\ hist = <<>>
+             /\ last = [cmd |-> "none", args |-> [pkgs |-> {}], exit |-> 0]
+
 Rec(cmd, args, exit) ==
   /\ last' = [cmd |-> cmd, args |-> args, exit |-> exit]
   /\ hist' = IF MaxHist = 0 THEN hist
@@ -115,6 +124,8 @@ Next ==
      \/ \E P \in NonEmpty(Pkgs), hdr \in Headers, tg \in Tags : Diff(P, hdr, tg)
      \/ \E P \in NonEmpty(Pkgs) : Check(P)
      \/ \E P \in NonEmpty(Pkgs) : Show(P)
+NextDiff == (MaxHist = 0 \/ Len(hist) < MaxHist) /\ \E P \in NonEmpty(Pkgs), hdr \in Headers, tg \in Tags : Diff(P, hdr, tg)
+NextGen  == (MaxHist = 0 \/ Len(hist) < MaxHist) /\ \E P \in NonEmpty(Pkgs), hdr \in Headers, x \in Prefixes, tg \in Tags : Gen(P, hdr, x, tg, "gen")
 Spec == Init /\ [][Next]_vars
 
 (* ---- properties (all over the step just taken: last', src', disk') -------------- *)
